@@ -227,6 +227,74 @@ class Scan:
         self.fn, self.name, self.qual = fn, fn.name, fn.qual
 
 
+def _address_scan_abs(M, ga, roles, store, frame_key, header_key):
+    """the address scan interpreted (E-ABS) on frames of every length 0..7 whose octets are symbolic except for their extension bit, from every
+    position 0..4 and for every valuation of the extension bits: ('ok', cells) | ('bad', text) | ('undecided', text)"""
+    from sa.abseval import AbsEval, AObj, Sym
+    from sa.sveval import Res
+    import itertools
+    cells = 0
+    for n in range(0, 8):
+        octs = [Sym(f"o{i}", "int") for i in range(n)]
+        for pos in range(0, 5):
+            span = list(range(pos, n))
+            for bits in itertools.product((0, 1), repeat=len(span)) if span else [()]:
+                val = dict(zip(span, bits))
+                if any(val[j] for j in span[:-1] if j in val and False):
+                    pass
+                # valuations that differ only after the first terminating octet are the same case
+                first = next((j for j in span if val[j]), None)
+                if first is not None and any(val[j] for j in span if j > first):
+                    continue
+                A = AbsEval(M)
+                A.abstract_bytes = True
+                foreign = []
+
+                def oracle(term, octs=octs, val=val, foreign=foreign):
+                    # decides exactly the tests of the extension bit: (o & 1) == 1, (o & 1) != 0, o & 1, o % 2 ...
+                    t, neg = term, False
+                    want = None
+                    if isinstance(t, Res) and t.op in ("Eq", "NotEq") and len(t.args) == 2:
+                        a, b = t.args
+                        if isinstance(a, int) and not isinstance(b, int):
+                            a, b = b, a
+                        if isinstance(b, int) and b in (0, 1):
+                            want = b if t.op == "Eq" else 1 - b
+                            t = a
+                    if isinstance(t, Res) and t.op in ("BitAnd", "Mod") and len(t.args) == 2:
+                        a, b = t.args
+                        if isinstance(a, int) and not isinstance(b, int):
+                            a, b = b, a
+                        if (t.op == "BitAnd" and b == 1 or t.op == "Mod" and b == 2) and any(a is o for o in octs):
+                            i = next(k for k, o in enumerate(octs) if a is o)
+                            bit = val.get(i)
+                            if bit is None:
+                                foreign.append(f"octet {i} before the position")
+                                return None
+                            return bit == (1 if want is None else want)
+                    foreign.append(repr(term))
+                    return None
+                A.oracle = oracle
+                frame = AObj("HdlcFrame", {store: list(octs)}, cls_key=frame_key)
+                header = AObj("HdlcFrameHeader", {roles["frame"]: frame}, cls_key=header_key)
+                r = A.apply(ga, [header, pos])
+                cells += 1
+                desc = f"frame of {n} octet(s), position {pos}, extension bits {''.join(str(val[j]) for j in span) or '-'}"
+                if r[0] == "branch":
+                    return ("foreign", f"the scan decides on {r[1]!r} ({desc}): the end of an address depends on more than the extension bit of the scanned octets")
+                if r[0] == "undecided":
+                    return ("undecided", f"{r[1]} ({desc})")
+                want_r = None if first is None else tuple(octs[pos:first + 1])
+                got = r[1] if r[0] == "value" else f"raises {r[1]}"
+                if isinstance(got, (list, tuple)):
+                    got = tuple(got)
+                same = (got is None and want_r is None) or (isinstance(got, tuple) and want_r is not None and len(got) == len(want_r) and all(x is y for x, y in zip(got, want_r)))
+                if not same:
+                    show = lambda t: None if t is None else t if isinstance(t, str) else "octets[" + ",".join(str(octs.index(x)) if any(x is o for o in octs) else "?" for x in t) + "]"
+                    return ("bad", f"for a {desc} the scan gives {show(got)} instead of {show(want_r)}")
+    return ("ok", cells)
+
+
 def _address_scan(rep, M, H, file, roles, store, A):
     """the header method with a position parameter and a loop: returns octets[position : j+1] for the first j >= position whose
     octet has the low bit set, None if the frame ends first"""
@@ -235,6 +303,15 @@ def _address_scan(rep, M, H, file, roles, store, A):
         rep.undecide("R4 address scan helper (header method with a position parameter and a loop) not found")
         return None
     rep.count("accessors", 1)
+    verdict = _address_scan_abs(M, ga, roles, store, A.FRAME, A.HEADER)
+    if verdict[0] == "ok":
+        rep.ok("R4", "address scan", f"starts at the given position, returns the octets up to and including the first one with extension bit 1, None if the frame ends first "
+               f"({verdict[1]} frame worlds: lengths 0..7 x positions 0..4 x extension-bit valuations; other bits symbolic)")
+        rep.count("address_scan_worlds", verdict[1])
+        return Scan(ga)
+    if verdict[0] in ("bad", "foreign"):
+        rep.violation("R4", f"hdlc.HdlcFrameHeader.{ga.name}", "address-scan", verdict[1], file, ga.node.lineno)
+        return Scan(ga)
     qual = f"hdlc.HdlcFrameHeader.{ga.name}"
     pos = ("p", ga.params[0])
     E = Engine(M, inline_depth=8, inline_subobjects=True, split_ifexp=True)
